@@ -498,6 +498,66 @@ func c16Scenarios(tier string) []*world.Scenario {
 			}
 		}
 	}
+	// the request object of a timed-out request is recycled; its late reply arrives before / while the NEXT request, a
+	// split one whose fragments are answered at different times, uses that object: it must be answered completely
+	for _, kind := range []string{"mget", "del", "mset", "get"} {
+		for _, first := range []string{"get", "mget"} {
+			stalled := keysA[0]
+			var r1 Req
+			if first == "get" {
+				r1 = GetReq(stalled)
+			} else {
+				r1 = MGetReq(stalled, keysB[5])
+			}
+			late := r1.Expect
+			r1.Expect = []byte(world.RErrTimeout)
+			var r2 Req
+			switch kind {
+			case "mget":
+				r2 = MGetReq(keysB[1], keysC[1])
+			case "del":
+				r2 = DelReq(keysB[1], keysC[1])
+			case "mset":
+				r2 = MSetReq(keysB[1], "1", keysC[1], "2")
+			default:
+				r2 = GetReq(keysB[1])
+			}
+			r3 := GetReq(keysC[3])
+			cs := ClientOf([]Req{r1, r2, r3}, false)
+			cs.Chunks[1].WaitTicks, cs.Chunks[1].WaitReplies = 1, 1
+			cs.Chunks[2].WaitTicks, cs.Chunks[2].WaitReplies = 1, 1
+			cs.ExpectAlt = map[int][]byte{0: late}
+			sc := &world.Scenario{Nodes: T3m(), Bound: b + 1, Horizon: 300, TimeoutMs: 100, Clients: []world.ClientSpec{cs},
+				Ticks: []time.Duration{150 * time.Millisecond}, Family: "recycled-after-timeout"}
+			nf := 1
+			if first == "mget" {
+				nf = 2
+			}
+			sc.TickGate = func(w *world.World) bool { return len(w.DataCmds("")) >= nf }
+			sc.Reply = func(w *world.World, bc *world.BConn, args [][]byte) ([]byte, int) {
+				if hasKey(args, stalled) {
+					return world.DefaultReply(world.Lower(args[0]), args), 1
+				}
+				return nil, 0
+			}
+			sc.Name = fmt.Sprintf("C16/recycled-after-timeout/%s-then-%s/d%d", first, kind, sc.Bound)
+			sc.Check = func(w *world.World) []world.Violation {
+				vs := CheckStreams(w, StreamOpts{})
+				for i := range vs {
+					switch vs[i].Sig {
+					case "missing-tail", "closed-with-pending", "unexpected-close":
+						vs[i].Sig = "queue-stuck-after-timeout"
+					case "corrupt", "forwarded-swap":
+						vs[i].Sig = "request-after-timeout-answered-wrongly"
+					case "duplicate", "extra-bytes":
+						vs[i].Sig = "timeout-duplicated-or-late-reply-delivered"
+					}
+				}
+				return vs
+			}
+			out = append(out, sc)
+		}
+	}
 	return out
 }
 
@@ -740,7 +800,7 @@ func init() {
 		Scenarios: c15Scenarios, BudgetQuick: 100, BudgetThorough: 1500,
 		Assumptions: []string{"'forever' = until no event is left and two further clock ticks have been granted"}})
 	register(&Check{ID: "C16", Level: "fault_enumeration",
-		Rule:      "timeout 100 ms; pipelines {A; A,B; B,A; A,B,A; MGET A+B; MGET,A; A,DEL A+B} x EVERY non-empty subset of fragments whose node stalls (forever, or answering after the deadline) x placement of the clock tick and of a wake-up request at every position within the bound; oracle: each stalled request is answered by exactly one timeout error in its pipeline position, the others by their real replies, late replies produce no bytes, the follow-up request is answered; non-trivial = >= 1 non-default choice; distinct = observable outcomes",
+		Rule:      "timeout 100 ms; pipelines {A; A,B; B,A; A,B,A; MGET A+B; MGET,A; A,DEL A+B} x EVERY non-empty subset of fragments whose node stalls (forever, or answering after the deadline) x placement of the clock tick and of a wake-up request at every position within the bound; oracle: each stalled request is answered by exactly one timeout error in its pipeline position, the others by their real replies, late replies produce no bytes, the follow-up request is answered; non-trivial = >= 1 non-default choice; distinct = observable outcomes; plus: a GET / split MGET times out, its request object is recycled, the late reply arrives before or while the NEXT request (GET, or MGET/DEL/MSET split over two other nodes answering at different times) uses that object: it and the request after it are answered completely and correctly",
 		Scenarios: c16Scenarios, BudgetQuick: 100, BudgetThorough: 1500,
 		Assumptions: []string{"a node that stalls on one command does not answer later commands on the same connection either (Redis executes sequentially)", "virtual clock; msgTimeout only runs after an event, so a wake-up request follows the tick"}})
 	register(&Check{ID: "C20", Level: "model_checking",
